@@ -6,6 +6,7 @@ The encoders of `encode.rs` on top of the bit-buffer law: for every payload of t
 import FastQr.Proofs.CompactSound
 import FastQr.Props.C09
 import FastQr.Model.Encode
+import FastQr.Spec.Bitstream
 import FastQr.Props.C05
 import FastQr.Props.C02
 
@@ -534,5 +535,166 @@ theorem encode_bits (inp : List Nat) (l : ECL) (m : Mode) (v : Nat) (hv : v < 40
     simp [bitsOf, hlen0]
   · rw [hval, appL_size a4, s3, hsz]
   · rw [hval]; exact appL_inv a4
+
+/-! ### from bits to data codewords -/
+
+/-- 8 bits to a byte and back -/
+theorem ofBits_toBits8 : ∀ x, x < 256 → Bitstream.ofBits (Bitstream.toBits 8 x) = x := by
+  have h : (List.range 256).all (fun x => Bitstream.ofBits (Bitstream.toBits 8 x) == x) = true := by decide +kernel
+  intro x hx
+  have := (List.all_eq_true.mp h) x (List.mem_range.mpr hx)
+  simpa using this
+
+/-- the k-th byte of a clean buffer is its k-th group of 8 bits -/
+theorem byte_eq_bits (c : Compact) (hinv : Inv c) (k : Nat) :
+    c.data.getD k 0 = Bitstream.ofBits ((List.range 8).map fun j => bit c (8 * k + j)) := by
+  have hx := hinv.bytes k
+  have : (List.range 8).map (fun j => bit c (8 * k + j)) = Bitstream.toBits 8 (c.data.getD k 0) := by
+    apply List.ext_getElem
+    · simp [Bitstream.toBits]
+    · intro j h1 h2
+      have hj : j < 8 := by simpa using h1
+      simp only [List.getElem_map, List.getElem_range, bit, Bitstream.toBits]
+      have e1 : (8 * k + j) / 8 = k := by omega
+      have e2 : (8 * k + j) % 8 = j := by omega
+      rw [e1, e2, testBit_shift]
+  rw [this, ofBits_toBits8 _ hx]
+
+/-- `packBytes` on a whole number of bytes -/
+theorem packBytes_get : ∀ (s : List Bool) (i : Nat), 8 * i + 8 ≤ s.length →
+    (Bitstream.packBytes s).getD i 0 = Bitstream.ofBits ((s.drop (8 * i)).take 8)
+  | a :: b :: c :: d :: e :: f :: g :: h :: rest, 0, _ => by
+    simp [Bitstream.packBytes]
+  | a :: b :: c :: d :: e :: f :: g :: h :: rest, i + 1, hl => by
+    have := packBytes_get rest i (by simp at hl; omega)
+    simp only [Bitstream.packBytes, List.getD_cons_succ, this]
+    have e : 8 * (i + 1) = 8 * i + 8 := by omega
+    rw [e]
+    simp [List.drop_succ_cons]
+  | [], i, hl => by simp at hl
+  | [_], i, hl => by simp at hl
+  | [_, _], i, hl => by simp at hl
+  | [_, _, _], i, hl => by simp at hl
+  | [_, _, _, _], i, hl => by simp at hl
+  | [_, _, _, _, _], i, hl => by simp at hl
+  | [_, _, _, _, _, _], i, hl => by simp at hl
+  | [_, _, _, _, _, _, _], i, hl => by simp at hl
+
+theorem packBytes_length : ∀ (s : List Bool), s.length % 8 = 0 → (Bitstream.packBytes s).length = s.length / 8
+  | [], _ => rfl
+  | a :: b :: c :: d :: e :: f :: g :: h :: rest, hl => by
+    have := packBytes_length rest (by simp at hl; omega)
+    simp only [Bitstream.packBytes, List.length_cons, this]; omega
+  | [_], hl => by simp at hl
+  | [_, _], hl => by simp at hl
+  | [_, _, _], hl => by simp at hl
+  | [_, _, _, _], hl => by simp at hl
+  | [_, _, _, _, _], hl => by simp at hl
+  | [_, _, _, _, _, _], hl => by simp at hl
+  | [_, _, _, _, _, _, _], hl => by simp at hl
+
+theorem drop_len_add {α : Type} (a b : List α) (k : Nat) : (a ++ b).drop (a.length + k) = b.drop k := by
+  rw [← List.drop_drop, List.drop_left]
+
+theorem chunk_flatMap : ∀ (l : List Nat) (j : Nat), j < l.length →
+    ((l.flatMap (Bitstream.toBits 8)).drop (8 * j)).take 8 = Bitstream.toBits 8 (l.getD j 0)
+  | x :: xs, 0, _ => by
+    simp only [List.flatMap_cons, Nat.mul_zero, List.drop_zero, List.getD_cons_zero]
+    rw [List.take_append_of_le_length (by simp [toBits_length])]
+    rw [List.take_of_length_le (by simp [toBits_length])]
+  | x :: xs, j + 1, h => by
+    have ih := chunk_flatMap xs j (by simpa using h)
+    simp only [List.flatMap_cons, List.getD_cons_succ]
+    have e : 8 * (j + 1) = (Bitstream.toBits 8 x).length + 8 * j := by rw [toBits_length]; omega
+    rw [e, drop_len_add, ih]
+  | [], j, h => by simp at h
+
+/-- the 8 bits starting at `8 i` of the bit view are the 8 bit positions of byte `i` -/
+theorem bits_chunk (c : Compact) (i : Nat) (h : 8 * i + 8 ≤ c.len) :
+    ((bitsOf c).drop (8 * i)).take 8 = (List.range 8).map fun j => bit c (8 * i + j) := by
+  apply List.ext_getElem
+  · simp [bitsOf]; omega
+  · intro j h1 h2
+    have hj : j < 8 := by simpa using h2
+    simp [bitsOf, List.getElem_take, List.getElem_drop]
+
+/-- **C06 (data codewords)**: for every payload of the mode's alphabet that fits version `v` at level
+`l`, the first `data_codewords(v, l)` bytes of the buffer `encode::encode` returns are exactly the ISO
+7.4 data codewords (`Spec.Bitstream.codewords`), and no trap is recorded -/
+theorem encode_codewords (inp : List Nat) (l : ECL) (m : Mode) (v : Nat) (hv : v < 40)
+    (hb : Spec.IsBytes inp) (halpha : Spec.alphabetOK m inp = true) (hfit : Spec.fits m l v inp.length = true) :
+    (encode inp l m v).traps = [] ∧
+    (encode inp l m v).val.data.toList.take (T.dataCodewords l v) = Bitstream.codewords m v l inp := by
+  obtain ⟨htr, hbits, hsize, hinv, hsegle⟩ := encode_bits inp l m v hv hb halpha hfit
+  refine ⟨htr, ?_⟩
+  obtain ⟨hdb, hdc, _⟩ := Props.C05.C05_tables hv l m
+  have hlay := Props.C02.C02_layout hv l
+  have hmb : T.dataCodewords l v ≤ T.maxBytes v := by rw [hlay.2.2.2.2.2.2]; omega
+  have hpad := Props.C06.C06_pad_bytes
+  generalize hseg0 : Bitstream.segment m v inp = seg at hbits hsegle
+  generalize hr0 : (encode inp l m v).val = r at hbits hsize hinv
+  -- the byte-aligned head S and the pad bits
+  have hS : ∃ S : List Bool, S = seg ++ List.replicate (termLen l v seg.length) false ++
+      List.replicate (padLen l v seg.length) false := ⟨_, rfl⟩
+  obtain ⟨S, hSdef⟩ := hS
+  rw [← hSdef] at hbits
+  have hSlen : S.length = seg.length + termLen l v seg.length + padLen l v seg.length := by
+    rw [hSdef]; simp only [List.length_append, List.length_replicate]
+  have hS8 : S.length % 8 = 0 := by rw [hSlen]; simp only [padLen]; omega
+  have hSle : S.length ≤ T.dataCodewords l v * 8 := by
+    rw [hSlen]; simp only [padLen, termLen]
+    have : T.dataBits l v = T.dataCodewords l v * 8 := by rw [hdb, hdc]
+    omega
+  have hrlen : r.len = S.length + 8 * padCount l v seg.length := by
+    have := congrArg List.length hbits
+    simp only [bitsOf, List.length_map, List.length_range, List.length_append, bytesBits_length] at this
+    rw [this]
+  have hrge : T.dataCodewords l v * 8 ≤ r.len := by
+    rw [hrlen, hSlen]; simp only [padCount]; omega
+  -- the spec side
+  have hspec : Bitstream.codewords m v l inp =
+      Bitstream.packBytes S ++ (List.range (T.dataCodewords l v - (Bitstream.packBytes S).length)).map
+        (fun i => if i % 2 == 0 then 0xEC else 0x11) := by
+    have hd8 : Spec.dataBits v l / 8 = T.dataCodewords l v := by rw [← hdc]; omega
+    simp only [Bitstream.codewords, hseg0, hd8]
+    have e1 : min 4 (Spec.dataBits v l - seg.length) = termLen l v seg.length := by
+      simp only [termLen, hdb]; omega
+    have e2 : (8 - (seg ++ List.replicate (termLen l v seg.length) false).length % 8) % 8 = padLen l v seg.length := by
+      simp only [padLen, List.length_append, List.length_replicate]
+    rw [e1, e2, ← hSdef]
+  rw [hspec]
+  have hpl := packBytes_length S hS8
+  apply List.ext_getElem
+  · simp only [List.length_take, Array.length_toList, hsize, List.length_append, List.length_map, List.length_range, hpl]
+    omega
+  · intro i h1 h2
+    have hi : i < T.dataCodewords l v := by
+      simp only [List.length_take, Array.length_toList, hsize] at h1; omega
+    have hL : (r.data.toList.take (T.dataCodewords l v))[i] = r.data.getD i 0 := by
+      rw [List.getElem_take]
+      simp [Array.getD_eq_getD_getElem?]
+      rw [Array.getElem?_eq_getElem (by rw [hsize]; omega)]
+      simp
+    rw [hL, byte_eq_bits r hinv i, ← bits_chunk r i (by omega), hbits]
+    by_cases hik : i < S.length / 8
+    · rw [List.getElem_append_left (by rw [hpl]; exact hik)]
+      have h8 : 8 * i + 8 ≤ S.length := by omega
+      rw [List.drop_append_of_le_length (by omega), List.take_append_of_le_length (by simp; omega)]
+      have := packBytes_get S i h8
+      rw [List.getD_eq_getElem?_getD, List.getElem?_eq_getElem (by rw [hpl]; exact hik)] at this
+      simpa using this.symm
+    · rw [List.getElem_append_right (by rw [hpl]; omega)]
+      simp only [List.getElem_map, List.getElem_range, hpl]
+      have hd : 8 * i = S.length + 8 * (i - S.length / 8) := by omega
+      rw [hd, drop_len_add]
+      have hj : i - S.length / 8 < ((List.range (padCount l v seg.length)).map padByte).length := by
+        simp only [List.length_map, List.length_range]
+        have : 8 * i + 8 ≤ r.len := by omega
+        rw [hrlen] at this; omega
+      rw [chunk_flatMap _ _ hj]
+      rw [List.getD_eq_getElem?_getD, List.getElem?_eq_getElem hj]
+      simp only [List.getElem_map, List.getElem_range, Option.getD_some]
+      rw [ofBits_toBits8 _ (padByte_lt _)]
+      simp only [padByte, hpad]
 
 end FastQr.Proofs.EncodeSound
